@@ -125,7 +125,7 @@ impl Prop for Conventions {
     fn gen(&self, t: &mut Tape) -> Case {
         let w = if t.chance(1, 2) { 8 } else { 4 };
         let mut cfg = GenCfg::rich(w);
-        cfg.max_items = 2 + t.below(10);
+        cfg.max_items = 2 + t.below(10 * crate::driver::scale());
         cfg.docs = false;
         cfg.backends = false;
         cfg.static_vfuncs = true;
